@@ -24,7 +24,7 @@ let opt_str = function A "-" -> None | a -> Some (str a)
 
 let request_of (req : t) (drv : t) : request =
   match req, drv with
-  | L [A "req"; m; p; depth; ow; _dest; ctype; im; inm; body; _fail; _pfb],
+  | L (A "req" :: m :: p :: depth :: ow :: _dest :: ctype :: im :: inm :: body :: _fail :: _pfb :: _cancel),
     L [A "drv"; dk; dp; dim; dinm; pff; stamp; dirtag; bfails] ->
     { meth = str m; rpath = str p; h_depth = str depth; h_overwrite = str ow;
       h_dest = (match dk with A "absent" -> DestAbsent | A "bad" -> DestBad | A "path" -> DestPath (str dp) | _ -> raise (Parse_error "dest"));
@@ -77,6 +77,8 @@ let () =
       let sb = node_of tree and aft = node_of after in
       let r = request_of req drv in
       bump ("method_" ^ string_of_chars r.meth);
+      (* hypothesis of the step-level theorems (C01_copy_is_walk): listings in OS order *)
+      if not (sorted_otree sb) then raise (Failure "the sandbox listing is not in the order the model assumes (sorted_tree)");
       (match response_of obs with
        | None -> bump "obs_panic"; Some "agree=0 spec=0 kf=- :: implementation panicked"
        | Some o ->
@@ -90,4 +92,32 @@ let () =
            | _ -> model_agrees root sb r o aft, spec_ok root sb r o aft in
          let (sb', resp) = serve root sb r in
          verdict ~agree ~spec ~kf:"-" ~detail:(Printf.sprintf "model: %s after=%s" (show_resp resp) (show_node sb')))
+    | L [A "usteps"; L (A "dir" :: dir); tmp; name; L (A "chunks" :: chunks); fails; status] ::
+      L [A "tree"; tree] :: L (A "seen" :: seen) :: L [A "after"; after] :: _ ->
+      let sb = node_of tree and aft = node_of after in
+      let dir = List.map str dir and chunks = List.map str chunks and fails = bool_ fails in
+      let seen = List.map node_of seen in
+      let st = n_of_int 0 in
+      let body = List.concat chunks in
+      bump (if fails then "upload_fails" else "upload_completes");
+      bump (Printf.sprintf "pieces_%d" (min 6 (List.length chunks)));
+      note_nontrivial (show (L [tree; L (List.map (fun c -> A (string_of_int (List.length c))) chunks); A (string_of_bool fails)]));
+      (match status with
+       | A "panic" -> Some "agree=0 spec=0 kf=- :: implementation panicked"
+       | _ ->
+         let code = int_ status in
+         let existed = (match geto sb (List.append dir [str name]) with Some _ -> true | None -> false) in
+         let status_model = if fails then 500 else if existed then 204 else 201 in
+         let fresh t = (match geto sb (List.append dir [t]) with None -> true | Some _ -> false) in
+         let agree = (match tmp with
+           | A "-" -> false
+           | t -> upload_agrees sb dir (str t) (str name) st chunks fails seen aft && code = status_model) in
+         let t = (match tmp with A "-" -> [] | t -> str t) in
+         if not (fresh t) then bump "temporary_name_was_taken";
+         let spec = upload_spec_ok sb dir t (str name) st body fails seen aft
+                    && (if fails then code >= 400 else code = status_model)
+                    && (code < 400 || onode_eqb aft sb) in
+         verdict ~agree ~spec ~kf:"-"
+           ~detail:(Printf.sprintf "tmp=%s fresh=%b status=%d model_status=%d seen=%d after=%s" (match tmp with A "-" -> "(none found beside the target)" | t -> show_chars (str t))
+                      (fresh t) code status_model (List.length seen) (show_node aft)))
     | _ -> raise (Parse_error "line"))
